@@ -29,12 +29,22 @@ def resolve_const(ck: Checker, fn: Func, e: ast.expr) -> Optional[str]:
     return None
 
 
+def _writer_funcs(ck: Checker, al: Func):
+    """as_list itself, its closures and the module-level helpers it calls directly."""
+    fns = [al] + list(al.children.values())
+    for c, cals in ck.res.calls_in(al):
+        for cal in cals:
+            if cal.module is al.module and cal.fq != al.fq and cal not in fns:
+                fns.append(cal)
+    return fns
+
+
 def check_sep(ck: Checker, rule: str) -> None:
     """Tree.as_list joins key parts with separator S under key K; Tree.from_list pops K and splits on S."""
     prog = ck.prog
     al = prog.func("hashfile.tree", "Tree.as_list")
     fl = prog.func("hashfile.tree", "Tree.from_list")
-    # writer
+    # writer: a join() whose value is stored under a dict key (literal or subscript store)
     w_key = w_sep = None
     for d in walk_own(al.node):
         if isinstance(d, ast.Dict):
@@ -42,7 +52,9 @@ def check_sep(ck: Checker, rule: str) -> None:
                 if k is not None and isinstance(v, ast.Call) and is_method_call(v, "join"):
                     w_key = resolve_const(ck, al, k)
                     w_sep = resolve_const(ck, al, v.func.value)
-                    w_arg = norm(v.args[0]) if v.args else None
+        if isinstance(d, ast.Assign) and isinstance(d.targets[0], ast.Subscript) and isinstance(d.value, ast.Call) and is_method_call(d.value, "join"):
+            w_key = resolve_const(ck, al, d.targets[0].slice)
+            w_sep = resolve_const(ck, al, d.value.func.value)
     r_key = r_sep = None
     maxsplit = False
     for c in walk_own(fl.node):
@@ -54,13 +66,31 @@ def check_sep(ck: Checker, rule: str) -> None:
     ck.require(w_key is not None and w_key == r_key, rule, al, al.node, f"writer and reader use the same path field '{w_key}'", f"listing writer stores the path under '{w_key}' but the reader pops '{r_key}'", construct="relpath key")
     ck.require(w_sep is not None and w_sep == r_sep == "/", rule, al, al.node, "key parts are joined and split with '/'", f"listing writer joins with {w_sep!r} but the reader splits on {r_sep!r}", construct="relpath separator")
     ck.require(not maxsplit, rule, fl, fl.node, "the reader splits the whole path", "the reader splits with a maxsplit / from the right: nested keys are not restored", construct="relpath split / unbounded")
-    # legacy hash-field table
-    w_tab = [norm(t.test) + " -> " + norm(t.body[0]) for t in walk_own(al.node) if isinstance(t, ast.If) and "md5-dos2unix" in norm(t.test)]
-    for f in al.children.values():
-        w_tab += [norm(t.test) + " -> " + norm(t.body[0]) for t in walk_own(f.node) if isinstance(t, ast.If) and "md5-dos2unix" in norm(t.test)]
-    r_tab = [norm(x) for x in walk_own(fl.node) if isinstance(x, ast.IfExp) and "md5-dos2unix" in norm(x)]
-    ok = any("{'md5': " in t for t in w_tab) and any(t.startswith("'md5' if") for t in r_tab)
-    ck.require(ok, rule, al, al.node, "writer and reader both map md5-dos2unix to the 'md5' field", f"legacy hash-field mapping differs: writer {w_tab}, reader {r_tab}", construct="md5-dos2unix field")
+    # legacy hash-field table: writer emits {'md5': value} for md5-dos2unix; reader reads field 'md5' for it
+    w_ok = False
+    for f in _writer_funcs(ck, al):
+        gf = ck.cfg(f)
+        for t in gf.nodes.values():
+            if t.kind == "test" and "md5-dos2unix" in norm(t.ast) and ".name" in norm(t.ast):
+                r = gf.reach([d for lab, d in t.succ if lab == "T"])
+                for i in r:
+                    n = gf.nodes[i]
+                    if n.ast is not None:
+                        for x in walk_expr(n.ast):
+                            if isinstance(x, ast.Dict) and any(isinstance(k, ast.Constant) and k.value == "md5" for k in x.keys):
+                                w_ok = True
+    r_ok = False
+    for x in walk_own(fl.node):
+        if isinstance(x, ast.IfExp) and "md5-dos2unix" in norm(x.test) and isinstance(x.body, ast.Constant) and x.body.value == "md5":
+            r_ok = True
+    gfl = ck.cfg(fl)
+    for t in gfl.nodes.values():
+        if t.kind == "test" and "md5-dos2unix" in norm(t.ast):
+            for i in gfl.reach([d for lab, d in t.succ if lab == "T"]):
+                n = gfl.nodes[i]
+                if n.kind == "stmt" and isinstance(n.ast, ast.Assign) and isinstance(n.ast.value, ast.Constant) and n.ast.value.value == "md5":
+                    r_ok = True
+    ck.require(w_ok and r_ok, rule, al, al.node, "writer and reader both map md5-dos2unix to the 'md5' field", f"legacy hash-field mapping differs (writer maps to 'md5': {w_ok}, reader reads 'md5': {r_ok})", construct="md5-dos2unix field")
 
 
 def check_from_list_rows(ck: Checker, rule: str) -> None:
@@ -89,11 +119,17 @@ def check_from_list_rows(ck: Checker, rule: str) -> None:
             seen.add((at.id, name))
             for d in reaching_defs(g, at.id, name):
                 if d.id not in body_ids and d.id != h.id:
-                    # defined before the loop: parameters / constants are fine, containers are not
+                    # defined before the loop: values computed from parameters / constants are loop
+                    # invariants; containers that persist across entries are not
                     v = getattr(d.ast, "value", None)
                     if v is not None and not isinstance(v, ast.Constant) and name not in ("tree", "cls"):
                         if not (isinstance(v, ast.Call) and call_name(v) in ("cls", "Tree")):
-                            bad.append(f"{name} := {norm(d.ast)[:80]} (defined outside the loop)")
+                            from ..prov import is_empty_container
+
+                            vnames = {x.id for x in walk_expr(v) if isinstance(x, ast.Name)}
+                            invariant = not is_empty_container(v) and not isinstance(v, (ast.Dict, ast.List, ast.Set)) and all(fl.has_param(x) for x in vnames)
+                            if not invariant:
+                                bad.append(f"{name} := {norm(d.ast)[:80]} (defined outside the loop)")
                     continue
                 src = d.ast.iter if d.kind == "for" else getattr(d.ast, "value", None)
                 if src is None:
